@@ -485,8 +485,9 @@ func (q *SendType) inferModality(labelledTypesEnv LabelledTypesEnv, usedLabels m
 		return q.Mode
 	}
 
-	leftUsedLabel := copyMap(usedLabels)
-	leftMode := q.Left.inferModality(labelledTypesEnv, leftUsedLabel)
+	// The set of visited labels is shared between the operands (a label needs to be explored
+	// only once), otherwise inference takes exponential time on chains of definitions
+	leftMode := q.Left.inferModality(labelledTypesEnv, usedLabels)
 	rightMode := q.Right.inferModality(labelledTypesEnv, usedLabels)
 
 	commonMode := commonMode(leftMode, rightMode)
@@ -507,8 +508,9 @@ func (q *ReceiveType) inferModality(labelledTypesEnv LabelledTypesEnv, usedLabel
 		return q.Mode
 	}
 
-	leftUsedLabel := copyMap(usedLabels)
-	leftMode := q.Left.inferModality(labelledTypesEnv, leftUsedLabel)
+	// The set of visited labels is shared between the operands (a label needs to be explored
+	// only once), otherwise inference takes exponential time on chains of definitions
+	leftMode := q.Left.inferModality(labelledTypesEnv, usedLabels)
 	rightMode := q.Right.inferModality(labelledTypesEnv, usedLabels)
 
 	commonMode := commonMode(leftMode, rightMode)
@@ -525,8 +527,8 @@ func (q *SelectLabelType) inferModality(labelledTypesEnv LabelledTypesEnv, usedL
 
 	var commonModes []Modality
 	for _, branch := range q.Branches {
-		usedLabelsCopy := copyMap(usedLabels)
-		branchMode := branch.SessionType.inferModality(labelledTypesEnv, usedLabelsCopy)
+		// The set of visited labels is shared between the branches (see SendType)
+		branchMode := branch.SessionType.inferModality(labelledTypesEnv, usedLabels)
 		commonModes = append(commonModes, branchMode)
 	}
 
@@ -544,8 +546,8 @@ func (q *BranchCaseType) inferModality(labelledTypesEnv LabelledTypesEnv, usedLa
 
 	var commonModes []Modality
 	for _, branch := range q.Branches {
-		usedLabelsCopy := copyMap(usedLabels)
-		branchMode := branch.SessionType.inferModality(labelledTypesEnv, usedLabelsCopy)
+		// The set of visited labels is shared between the branches (see SendType)
+		branchMode := branch.SessionType.inferModality(labelledTypesEnv, usedLabels)
 		commonModes = append(commonModes, branchMode)
 	}
 
